@@ -149,6 +149,9 @@ def race_program(draw, cfg, cache):
         t1 = [['sb', 'wrap', [], True]]
     elif placement == 'after' and kind == 'bf':
         t0.append(['q', draw(st.sampled_from(['is_file', 'read_binary', 'get_size'])), path, 'HASH'])
+    if kind == 'bf' and placement == 'same' and draw(st.sampled_from(range(3))) == 0:
+        # same path, other arguments: still one key per build, but only one of the two calls can match a cached record
+        t1[0][3] = [2]
     root = [['par', [t0, t1]]]
     if kind == 'bf' and draw(st.booleans()):
         root.append(['q', 'read_binary', path, 'HASH'])
@@ -176,7 +179,11 @@ def race_drive(draw, h, cfg):
     if h.dead:
         return
     h.apply(['save'])
-    step(h, ['build', vers, None, None, {'sched': {'preempt': []}}])
+    # a third of the scenarios: the root function raises after the parallel part, so every racing build is rolled back
+    fail_at = draw(st.sampled_from([None, None, 0]))
+    if fail_at is not None:
+        h.stats['c08_race_scenarios_rolled_back'] += 1
+    step(h, ['build', vers, fail_at, None, {'sched': {'preempt': []}}])
     if h.dead:
         return
     N = ((h.rctx.extra.get('sched_runs') or [{'decisions': 0}])[0])['decisions']
@@ -198,14 +205,14 @@ def race_drive(draw, h, cfg):
         if h.dead:
             return
         h.apply(['restore'])
-        step(h, ['build', vers, None, None, {'sched': spec}])
+        step(h, ['build', vers, fail_at, None, {'sched': spec}])
         h.stats['c08_race_runs'] += 1
         sr = (h.rctx.extra.get('sched_runs') or [{}])[0]
         if sr.get('switches', 0) > 0 or spec.get('first'):
             h.stats['c08_race_runs_interleaved'] += 1
             h.flags.add('c08_nontrivial')
             h.nt_keys.append(['race', spec])
-        if not h.dead and h.last.get('committed'):
+        if not h.dead and (h.last.get('committed') or fail_at is not None):
             if reuse:
                 # the follow-up build requests only the caller that caught the rejection (no duplicate any more)
                 step(h, ['root', 2])
